@@ -145,7 +145,7 @@ def parse_model(out, tags):
 
 class FormatsStream(Stream):
     name = "formats"
-    rule = ("the C01 tree generator (0-5 simultaneous defects of 14 kinds, names with spaces, colon, non-ASCII; REUSE.toml / dep5 / Git): "
+    rule = ("the C01 tree generator (0-5 simultaneous defects of 20 kinds, names with spaces, colon, non-ASCII; REUSE.toml hierarchies / dep5 with wildcard paragraphs / Git): "
             "the real `reuse lint --json`, `--plain`, `--lines`, `--quiet` on one tree, each output parsed back by its own parser into "
             "(category, item) sets, compared with the model's four formatters fed from the generator's records; oracle = same exit status, "
             "same sets per category across formats (licence-level lines items mapped to LICENSES/ paths through the generator's records), "
